@@ -1229,6 +1229,21 @@ func (m *Manager) Unlock(ns walletdb.ReadBucket, passphrase []byte) error {
 	// Use the crypto private key to decrypt all of the account private
 	// extended keys.
 	for _, manager := range m.scopedManagers {
+		// An account with pending derivations may have been dropped
+		// from the cache while locked (InvalidateAccountCache). Bring
+		// it back before the account keys are decrypted: loaded any
+		// later, while the manager still counts as locked, it would
+		// come without its private key.
+		for _, info := range manager.deriveOnUnlock {
+			_, err := manager.loadAccountInfo(
+				ns, info.managedAddr.InternalAccount(),
+			)
+			if err != nil {
+				m.lock()
+				return err
+			}
+		}
+
 		for account, acctInfo := range manager.acctInfo {
 			// Watch-only accounts (imported extended public keys)
 			// have no private key to decrypt.
